@@ -17,6 +17,7 @@ use crate::encrypted_media::types::{
     EncryptedMediaError, EncryptedMediaUpload, MediaProcessingOptions, MediaReference,
 };
 use crate::media_processing::validation;
+use crate::messages::DEFAULT_EPOCH_LOOKBACK;
 use crate::{GroupId, MDK};
 use mdk_storage_traits::{MdkStorageProvider, Secret};
 
@@ -158,10 +159,68 @@ where
                     &reference.mime_type,
                     &reference.filename,
                 )?;
-                Self::decrypt_and_verify(encrypted_data, &key, reference)
+                match Self::decrypt_and_verify(encrypted_data, &key, reference) {
+                    Ok(data) => Ok(data),
+                    Err(e) => self
+                        .try_decrypt_with_earlier_epochs(encrypted_data, reference)
+                        .ok_or(e),
+                }
             }
             Err(e) => Err(e),
         }
+    }
+
+    /// Try the exporter secrets of the epochs just before the announcing message's epoch.
+    ///
+    /// A file is encrypted before it is uploaded and the message announcing it is created
+    /// after the upload: commits applied in between put the announcing message into a later
+    /// epoch than the one whose exporter secret encrypted the file. The walk is bounded by the
+    /// past-epoch window (never less than the default look-back).
+    fn try_decrypt_with_earlier_epochs(
+        &self,
+        encrypted_data: &[u8],
+        reference: &MediaReference,
+    ) -> Option<Vec<u8>> {
+        let search_term = format!("n {}", hex::encode(reference.nonce));
+        let announced_in = self
+            .mdk
+            .storage()
+            .find_message_epoch_by_tag_content(&self.group_id, &search_term)
+            .ok()
+            .flatten();
+        let start = match announced_in {
+            Some(epoch) => epoch,
+            None => self.mdk.get_group(&self.group_id).ok().flatten()?.epoch,
+        };
+        let lookback = DEFAULT_EPOCH_LOOKBACK.max(self.mdk.config.max_past_epochs as u64);
+
+        for epoch in (start.saturating_sub(lookback)..start).rev() {
+            let Ok(Some(secret)) = self
+                .mdk
+                .storage()
+                .get_group_exporter_secret(&self.group_id, epoch)
+            else {
+                continue;
+            };
+            let Ok(key) = derive_encryption_key_with_secret(
+                &secret.secret,
+                &reference.scheme_version,
+                &reference.original_hash,
+                &reference.mime_type,
+                &reference.filename,
+            ) else {
+                continue;
+            };
+            if let Ok(data) = Self::decrypt_and_verify(encrypted_data, &key, reference) {
+                tracing::debug!(
+                    target: "mdk_core::encrypted_media::manager",
+                    "Decrypted with the exporter secret of epoch {}",
+                    epoch
+                );
+                return Some(data);
+            }
+        }
+        None
     }
 
     /// Decrypt and verify media data using a pre-derived encryption key
